@@ -3,6 +3,9 @@ import os, shutil, subprocess, sys, json
 MUT = [
  ("C01", "qkeras/quantizers.py", "          self.keep_negative  * (-m + self.symmetric), m - 1) / m", "          self.keep_negative  * (-m + self.symmetric), m) / m", "quantized_bits"),
  ("C01", "qkeras/quantizers.py", "      clip_min = self.keep_negative * (-unsigned_bits_po2 + self.symmetric)", "      clip_min = self.keep_negative * (-unsigned_bits_po2)", "quantized_linear"),
+ ("C01", "qkeras/quantizers.py", "    p_and_n = np.where(x >= 2**(self.bits - 1),", "    p_and_n = np.where(x > 2**(self.bits - 1),", "range"),
+ ("C01", "qkeras/quantizers.py", "    x = np.asarray(range(2**self.bits))\n    return x * np.array(\n        K.pow(2.0, -self.bits + K.cast(self.integer, dtype=\"float32\")),", "    x = np.asarray(range(2**self.bits))\n    return x * np.array(\n        K.pow(2.0, -self.bits + K.cast(self.integer, dtype=\"float32\") + 1),", "range"),
+ ("C01", "qkeras/quantizers.py", "      pos_array = K.cast_to_floatx(tf.range(clip_max + 1))", "      pos_array = K.cast_to_floatx(tf.range(clip_max))", "range"),
  ("C02", "qkeras/quantizers.py", "    output = x + tf.stop_gradient(-x + tf.round(x))\n  return output", "    output = x + tf.stop_gradient(-x + tf.floor(x))\n  return output", "quantized_bits"),
  ("C07", "qkeras/quantizers.py", "      return x_u + tf.stop_gradient(self.qnoise_factor * (-x_u + xq))", "      return x_u + tf.stop_gradient(self.qnoise_factor * (x_u - xq))", "quantized_relu"),
  ("C07", "qkeras/callbacks.py", "      val = float(self.finish - freq) / float(self.finish - self.start)", "      val = float(freq - self.start) / float(self.finish - self.start)", "schedule"),
